@@ -13,7 +13,7 @@ def run(ctx, replay=None):
                 "(through GenericModel.solve->DESolver and directly through DESolver's wrappers) for step sizes 2^-k and start "
                 "times 0 / non-zero; TLC (RungeKutta.tla) decides: explicitness, c = A.1, order conditions up to the "
                 "nominal order with the times actually used, exactness of order, documented tableau/times, one-step "
-                "quadrature of x'=t^3, state vector untouched. Distinct = (iterator, path, t0, h).")
+                "quadrature of x'=t^3 over one step and over runs whose last step the solver has to shorten, state vector untouched. Distinct = (iterator, path, t0, h).")
     ctx.assumptions = ["the iterator is linear in the derivative values it is given (true of anything written against updateX)",
                        "tableau entries are rationals with denominator <= 1000"]
     hs = [2.0 ** -k for k in ((0, 1, 3) if ctx.tier == "quick" else (0, 1, 2, 3, 5, 8))]
@@ -31,14 +31,27 @@ def run(ctx, replay=None):
                           {"case": [it, via, t0, h], "extracted": ex})
             continue
         quads = []
-        for (qt, qh) in ((1.0, 0.5), (0.0, 1.0), (2.0, 0.25)):
-            tq, hq = Fraction(qt), Fraction(qh)
-            quads.append({"t0": [tq.numerator, tq.denominator], "h": [hq.numerator, hq.denominator],
-                          "obs": K.quad(it, qt, qh)})
+        for (qt, qh, steps) in ((1.0, 0.5, [0.5]), (0.0, 1.0, [1.0]), (2.0, 0.25, [0.25]),
+                                # the end time is not a multiple of the proposed step: the last step is shortened by the solver
+                                (1.0, 0.5, [0.5, 0.25]), (0.0, 1.0, [1.0, 1.0, 0.5]), (3.0, 0.25, [0.25, 0.125])):
+            tq = Fraction(qt)
+            quads.append({"t0": [tq.numerator, tq.denominator], "hs": [[Fraction(v).numerator, Fraction(v).denominator] for v in steps],
+                          "obs": K.quad(it, qt, qh, span=sum(steps))})
         c = dict(name="%s/%s/t0=%g/h=%g" % (it, via, t0, h), order=doc["order"], S=ex["S"], A=ex["A"], b=ex["b"],
                  ct=ex["ct"], docA=doc["docA"], docb=doc["docb"], docc=doc["docc"], intact=ex["intact"], quad=quads)
         cases.append(c)
         meta.append((it, via, t0, h))
+    # right-hand sides that return arrays the caller still owns (the state vector itself, a stored array)
+    for it in ("euler", "rk4"):
+        al = K.alias_intact(it)
+        ctx.replayed += 2
+        ctx.case(["alias", it], sample={"alias": it, "observed": al} if len(ctx.samples) < 4 else None)
+        for k, v in al.items():
+            if not v:
+                ctx.violation("rk:%s:alias:%s" % (it, k), "%s iterator with a right-hand side that returns %s: %s" %
+                              (it, "its argument" if k in ("state", "step_alias") else "a stored array",
+                               {"state": "the state vector it was given was modified", "stored": "the array owned by the right-hand side was modified",
+                                "step_alias": "the step is not the documented one", "step_stored": "the step is not the documented one"}[k]), {"iterator": it, "observed": al})
     if not cases:
         return
     out, res = eval_cases("RungeKutta", cases, tag="rk")
